@@ -11,6 +11,9 @@ import (
 type subgoal struct {
 	hyps []*Term
 	goal *Term
+	// fallback: the goal is the guard of a hypothesis literally equal to this
+	// formula; if the guard cannot be shown, the formula itself is proved
+	fallback *Term
 }
 
 // splitGoal splits conjunctions, moves implication antecedents to the
@@ -28,9 +31,18 @@ func (ex *Exec) splitGoal(g *Term, hyps []*Term, out *[]subgoal) {
 				fmt.Fprintf(os.Stderr, "UNMATCHED %s\n", truncate(g.Canon(), 300))
 			}
 		}
-		if gd, ok := ex.knownHyps[g.Canon()]; ok && (gd == True || (ex.knownPath != nil && gd.String() == ex.knownPath.String())) {
-			statKnownHits++
-			return
+		if gd, ok := ex.knownHyps[g.Canon()]; ok {
+			if gd == True || (ex.knownPath != nil && gd.String() == ex.knownPath.String()) {
+				statKnownHits++
+				return
+			}
+			if !hasQuantStrict(gd) && !ex.noGuardShortcut {
+				// the same formula was established under guard gd (e.g. by a callee
+				// earlier on the path): showing gd is a propositional question
+				statKnownHits++
+				*out = append(*out, subgoal{hyps: hyps, goal: gd, fallback: g})
+				return
+			}
 		}
 	}
 	if !g.IsSym {
@@ -91,7 +103,7 @@ func (ex *Exec) splitGoal(g *Term, hyps []*Term, out *[]subgoal) {
 			}
 		}
 	}
-	*out = append(*out, subgoal{hyps, g})
+	*out = append(*out, subgoal{hyps: hyps, goal: g})
 }
 
 // altGoals: a content-equality goal streq(a,b) that the solver cannot get
@@ -105,7 +117,7 @@ func (ex *Exec) altGoals(sg subgoal) []subgoal {
 	a, b := g.Args[0], g.Args[1]
 	i := ex.D.Fresh("sk.i", SInt)
 	h2 := append(append([]*Term{}, sg.hyps...), Le(IntLit(0), i), Lt(i, SLen(a)))
-	return []subgoal{{sg.hyps, Eq(SLen(a), SLen(b))}, {h2, Eq(SAt(a, i), SAt(b, i))}}
+	return []subgoal{{hyps: sg.hyps, goal: Eq(SLen(a), SLen(b))}, {hyps: h2, goal: Eq(SAt(a, i), SAt(b, i))}}
 }
 
 // engineAxioms: axioms for the engine-level uninterpreted functions.
